@@ -73,6 +73,13 @@ def amax(a):
     return float('inf') if (a.size and np.isnan(a).any()) else (float(a.max()) if a.size else 0.0)
 
 
+def ref_su2to3(U):
+    """R_ij = tr(sigma_i U sigma_j U^dagger)/2, written independently of numqi"""
+    sig = [np.array([[0, 1], [1, 0]], dtype=np.complex128), np.array([[0, -1j], [1j, 0]]), np.array([[1, 0], [0, -1]], dtype=np.complex128)]
+    U = np.asarray(U, dtype=np.complex128)
+    return np.array([[0.5 * np.trace(sig[i] @ U @ sig[j] @ U.conj().T).real for j in range(3)] for i in range(3)])
+
+
 def exact_rz(t):
     c, s = math.cos(t), math.sin(t)
     return np.array([[c, -s, 0], [s, c, 0], [0, 0, 1.0]])
@@ -250,6 +257,23 @@ def correspondence(ctx):
     for op, a, b in zip(ops, impl, model):
         ok = (not isinstance(a, str)) and ';' in b and np.abs(a.reshape(-1) - np.array(parse_f(b))).max() <= 1e-13
         cmp(ctx, op, ok, b, a)
+
+    # ---- su2_to_so3 on SU(2) matrices stored with a real dtype (float64 / float32 / int), against the same model op -----------------
+    ops, impl, tols = [], [], []
+    for t_ in [0.0, 0.3, 0.9, 1.7, 2.2, PI, 4.0, -1.1]:
+        c_, s_ = math.cos(t_ / 2), math.sin(t_ / 2)
+        for dt, tol in [(np.float64, 1e-13), (np.float32, 1e-6)]:
+            U = np.array([[c_, -s_], [s_, c_]], dtype=dt)
+            ops.append('C15 su2so3f ' + ' '.join(f2b(x) for x in (float(U[0, 0]), 0.0, float(U[0, 1]), 0.0)))
+            impl.append(guarded(lambda: np.asarray(G.su2_to_so3(U), dtype=np.float64))); tols.append(tol)
+    for M in [[[1, 0], [0, 1]], [[-1, 0], [0, -1]], [[0, -1], [1, 0]], [[0, 1], [-1, 0]]]:
+        U = np.array(M, dtype=np.int64)
+        ops.append('C15 su2so3f ' + ' '.join(f2b(x) for x in (float(U[0, 0]), 0.0, float(U[0, 1]), 0.0)))
+        impl.append(guarded(lambda: np.asarray(G.su2_to_so3(U), dtype=np.float64))); tols.append(1e-13)
+    model = common.run_model(ops)
+    for op, a, b, tol in zip(ops, impl, model, tols):
+        ok = (not isinstance(a, str)) and ';' in b and np.abs(a.reshape(-1) - np.array(parse_f(b))).max() <= tol
+        cmp(ctx, op, ok, b, a, key='su2so3f-real-dtype')
 
     # ---- extraction: so3_to_angle / so3_to_su2 / su2_to_angle with the branch structure -----------------------------
     inputs = so3_inputs(ctx)
@@ -452,6 +476,32 @@ def probe(ctx):
                 if isinstance(r, str) or not np.all(np.isfinite(r[0])) or amax(r[1] - U) > 1e-6 or amax(r[2] - U) > 1e-6 or r[3] > 1e-5:
                     ctx.fail('corpus-su2', f'corpus {tag} ({e.get("why", "")}): su2_to_angle / get_su2_irrep fail: ' + (r if isinstance(r, str) else f'angles={r[0].tolist()}, |rebuilt-U|={amax(r[1] - U):.3g}, |D1(U)-U|={amax(r[2] - U):.3g}, hom={r[3]:.3g}'),
                              dict(op='su2-roundtrip', U=[[x.real, x.imag] for x in U.reshape(-1)], corpus=tag))
+                else:
+                    ctx.probe_ok(('corpus', tag))
+            elif e['kind'] == 'so3_to_su2':
+                R = ref_so3(*e['angles']) if 'angles' in e else np.array(e['R'], dtype=np.float64).reshape(3, 3)
+                def f():
+                    U = np.asarray(G.so3_to_su2(R))
+                    return U, G.su2_to_so3(U), G.angle_to_so3(*G.so3_to_angle(R))
+                r = guarded(f)
+                if isinstance(r, str) or not np.all(np.isfinite(r[0])) or amax(r[0] @ r[0].conj().T - np.eye(2)) > 1e-6 or amax(r[1] - R) > 1e-6 or amax(r[2] - R) > 1e-6:
+                    ctx.fail('corpus-so3-to-su2', f'corpus {tag} ({e.get("why", "")}): so3_to_su2(R) is not an SU(2) pre-image of R: ' + (r if isinstance(r, str) else f'U={r[0].tolist()}'),
+                             dict(op='so3-to-su2', R=fl(R), corpus=tag))
+                else:
+                    ctx.probe_ok(('corpus', tag))
+            elif e['kind'] == 'su2_real':
+                if 'ry' in e:
+                    c_, s_ = math.cos(e['ry'] / 2), math.sin(e['ry'] / 2)
+                    U0 = np.array([[c_, -s_], [s_, c_]])
+                else:
+                    U0 = np.array(e['U'], dtype=np.float64).reshape(2, 2)
+                U = U0.astype(e['dtype']); snap = U.copy()
+                tol = 1e-6 if e['dtype'] == 'float32' else 1e-12
+                ref = ref_su2to3(U0.astype(np.complex128))
+                r = guarded(lambda: (np.asarray(G.su2_to_so3(U)), np.asarray(G.su2_to_so3(U))))
+                if isinstance(r, str) or amax(r[0] - ref) > tol or amax(r[1] - ref) > tol or not np.array_equal(U, snap):
+                    ctx.fail('corpus-real-dtype', f'corpus {tag} ({e.get("why", "")}): su2_to_so3 on a real-dtype SU(2) matrix is wrong or modifies its input: ' + (r if isinstance(r, str) else f'result {r[0].tolist()}, input now {U.tolist()}'),
+                             dict(op='su2-to-so3', U=U0.reshape(-1).tolist(), dtype=e['dtype'], corpus=tag))
                 else:
                     ctx.probe_ok(('corpus', tag))
             elif e['kind'] == 'so3':
@@ -766,6 +816,73 @@ def probe(ctx):
                  dict(op='su2-assert', U=[[x.real, x.imag] for x in Ubad.reshape(-1)]))
     else:
         ctx.probe_ok('su2-assert')
+
+    # P11: real-dtype / non-contiguous / read-only inputs, and no conversion may modify its input (snapshot before, compare after,
+    # call twice on the same object)
+    def variants_of(M, allow_int):
+        out = [('float64', M.real.astype(np.float64) if not np.iscomplexobj(M) or amax(M.imag) == 0 else None), ('complex128', M.astype(np.complex128))]
+        if not np.iscomplexobj(M) or amax(M.imag) == 0:
+            Mr = np.real(M).astype(np.float64)
+            out += [('float32', Mr.astype(np.float32)), ('fortran', np.asfortranarray(Mr)), ('complex-real-view', (Mr + 0j).real),
+                    ('strided', np.stack([Mr, 7 * Mr, Mr])[::2][0]), ('transposed-twice', Mr.T.copy().T)]
+            ro = Mr.copy(); ro.flags.writeable = False
+            out.append(('read-only', ro))
+            if allow_int and np.array_equal(Mr, np.round(Mr)):
+                # (int8 / int16 are not used: numpy promotes arccos/arctan2 of int8 to float16, angles are then only 1e-3 accurate —
+                #  reported to the coordinator as an observation, not part of the documented input types)
+                out += [('int64', Mr.astype(np.int64)), ('int32', Mr.astype(np.int32))]
+        return [(t, x) for t, x in out if x is not None]
+
+    real_su2 = [np.eye(2), -np.eye(2), np.array([[0.0, -1.0], [1.0, 0.0]]), np.array([[0.0, 1.0], [-1.0, 0.0]])] + \
+        [np.array([[math.cos(t / 2), -math.sin(t / 2)], [math.sin(t / 2), math.cos(t / 2)]]) for t in (0.3, 0.9, 1.7, 2.2, PI, 4.0, -1.1)]
+    for U0 in real_su2:
+        refR = ref_su2to3(U0)
+        for tag, U in variants_of(U0, True):
+            tol = 1e-6 if tag == 'float32' else 1e-9
+            snap = np.array(U, copy=True)
+            def f():
+                r1 = np.asarray(G.su2_to_so3(U)); r2 = np.asarray(G.su2_to_so3(U))
+                a1 = G.su2_to_angle(U); D1 = np.asarray(G.get_su2_irrep(2, U)); D2 = np.asarray(G.get_su2_irrep(2, U))
+                return r1, r2, G.angle_to_su2(*a1), D1, D2
+            r = guarded(f)
+            rep = dict(op='dtype-aliasing', function='su2_to_so3/su2_to_angle/get_su2_irrep', U=U0.reshape(-1).tolist(), variant=tag)
+            if isinstance(r, str) or amax(r[0] - refR) > tol or amax(r[1] - refR) > tol or amax(r[2] - U0) > max(tol, 1e-6) or amax(r[3] - r[4]) > 0 \
+                    or amax(r[3] - np.asarray(G.get_su2_irrep(2, U0.astype(np.complex128)))) > max(tol, 1e-6) or not np.array_equal(np.asarray(U), snap):
+                ctx.fail('dtype-aliasing-su2', f'SU(2) matrix stored as {tag} ({U0.tolist()}): wrong image, results differ between two calls, or the input was modified: ' + (r if isinstance(r, str) else f'su2_to_so3 -> {r[0].tolist()}, input now {np.asarray(U).tolist()}'), rep)
+            else:
+                ctx.probe_ok(('dtype-su2', tag, hash(U0.tobytes())))
+    real_so3 = cube_rotations()[:8] + [ref_so3(0.3, 1.1, 2.0), exact_rz(1.3), exact_rz(0.4) @ np.diag([-1.0, 1.0, -1.0])]
+    for R0 in real_so3:
+        for tag, R in variants_of(R0, True):
+            tol = 1e-5 if tag == 'float32' else 1e-9
+            snap = np.array(R, copy=True)
+            def f():
+                a1 = G.so3_to_angle(R); a2 = G.so3_to_angle(R); U1 = np.asarray(G.so3_to_su2(R)); U2 = np.asarray(G.so3_to_su2(R))
+                return G.angle_to_so3(*a1), np.array([float(x) for x in a1]) - np.array([float(x) for x in a2]), G.su2_to_so3(U1), U1 - U2
+            r = guarded(f)
+            rep = dict(op='dtype-aliasing', function='so3_to_angle/so3_to_su2', R=R0.reshape(-1).tolist(), variant=tag)
+            if isinstance(r, str) or amax(r[0] - R0) > max(tol, 1e-6) or amax(r[1]) > 0 or amax(r[2] - R0) > max(tol, 1e-6) or amax(r[3]) > 0 or not np.array_equal(np.asarray(R), snap):
+                ctx.fail('dtype-aliasing-so3', f'SO(3) matrix stored as {tag}: wrong round trip, results differ between two calls, or the input was modified: ' + (r if isinstance(r, str) else f'{amax(r[0] - R0):.3g}'), rep)
+            else:
+                ctx.probe_ok(('dtype-so3', tag, hash(R0.tobytes())))
+    # batches of real-dtype matrices, and angle arrays of int / float32 / read-only dtype
+    Ub = np.stack(real_su2[:6]); snap = Ub.copy()
+    r = guarded(lambda: (np.asarray(G.su2_to_so3(Ub)), np.asarray(G.su2_to_so3(Ub))))
+    if isinstance(r, str) or amax(r[0] - np.stack([ref_su2to3(u) for u in real_su2[:6]])) > 1e-9 or amax(r[0] - r[1]) > 0 or not np.array_equal(Ub, snap):
+        ctx.fail('dtype-aliasing-su2', 'batch of real-dtype SU(2) matrices: wrong images or input modified', dict(op='dtype-aliasing', function='su2_to_so3', batch=Ub.reshape(-1).tolist(), variant='float64-batch'))
+    else:
+        ctx.probe_ok('dtype-su2-batch')
+    for tag, arr in [('int64', np.array([0, 1, 2, 3])), ('float32', np.array([0.0, 0.5, 1.0, 3.0], dtype=np.float32)), ('read-only', np.array([0.0, 0.5, 1.0, 3.0])), ('strided', np.arange(8.0)[::2])]:
+        if tag == 'read-only': arr.flags.writeable = False
+        snap = np.array(arr, copy=True)
+        af = np.asarray(arr, dtype=np.float64)
+        tol = 1e-6 if tag == 'float32' else 1e-12
+        r = guarded(lambda: (np.asarray(G.angle_to_so3(arr, arr, arr), dtype=np.float64), np.asarray(G.angle_to_su2(arr, arr, arr), dtype=np.complex128), np.asarray(G.get_su2_irrep(2, arr, arr, arr), dtype=np.complex128)))
+        if isinstance(r, str) or max(amax(r[0][i] - ref_so3(af[i], af[i], af[i])) for i in range(4)) > tol or max(amax(r[1][i] - ref_su2(af[i], af[i], af[i])) for i in range(4)) > tol \
+                or max(amax(r[2][i] - np.asarray(G.get_su2_irrep(2, af[i], af[i], af[i]))) for i in range(4)) > max(tol, 1e-6) or not np.array_equal(arr, snap):
+            ctx.fail('dtype-aliasing-angles', f'angle arrays of kind {tag}: forward maps wrong or input modified: ' + (r if isinstance(r, str) else ''), dict(op='dtype-aliasing', function='angle_to_*', angles=af.tolist(), variant=tag))
+        else:
+            ctx.probe_ok(('dtype-angles', tag))
 
     # P7: rational 2x2 rotations are orthogonal
     for _ in range(50):
